@@ -34,6 +34,7 @@ type Op struct {
 	Back    int      `json:"back,omitempty"`    // create-branch: how many commits behind From's tip
 	Child   string   `json:"child,omitempty"`   // merge
 	Commit  int      `json:"commit,omitempty"`  // revert: index into all commits created so far (creation order)
+	Any     bool     `json:"any,omitempty"`     // delete/vectors: Objs index into every object the pool has held and not vacuumed, live on the branch or not
 }
 
 func (o Op) String() string {
@@ -298,8 +299,17 @@ var msg = api.CommitMessage{Author: "verif"}
 // by content (then id).  Object ids are random within one second, so an order
 // by id would differ between two lakes that are given the same history (C19's
 // twins) and between two runs.
-func (m *Model) pickObjs(branch string, idx []int) []ksuid.KSUID {
+func (m *Model) pickObjs(branch string, idx []int, any ...bool) []ksuid.KSUID {
 	ids := SortedIDs(m.State(m.Branches[branch]))
+	if len(any) > 0 && any[0] {
+		all := map[ksuid.KSUID]bool{}
+		for id := range m.Objects {
+			if !m.Vacuumed[id] {
+				all[id] = true
+			}
+		}
+		ids = SortedIDs(all)
+	}
 	if m.contentKeys == nil {
 		m.contentKeys = map[ksuid.KSUID]string{}
 	}
@@ -391,7 +401,7 @@ func (m *Model) Exec(ctx context.Context, l *Lake, b Backing, op Op) Outcome {
 		}
 		m.addCommit(&MCommit{ID: commit, Parent: tip, Adds: adds, Kind: "load"}, op.Branch)
 	case "delete":
-		ids := m.pickObjs(op.Branch, op.Objs)
+		ids := m.pickObjs(op.Branch, op.Objs, op.Any)
 		if len(ids) == 0 {
 			out.Skipped = true
 			return out
@@ -495,7 +505,7 @@ func (m *Model) Exec(ctx context.Context, l *Lake, b Backing, op Op) Outcome {
 		}
 		m.addCommit(&MCommit{ID: commit, Parent: tip, Adds: adds, Dels: ids, Kind: "compact"}, op.Branch)
 	case "add-vectors", "del-vectors":
-		ids := dedup(m.pickObjs(op.Branch, op.Objs))
+		ids := dedup(m.pickObjs(op.Branch, op.Objs, op.Any))
 		if len(ids) == 0 {
 			out.Skipped = true
 			return out
